@@ -71,3 +71,12 @@ func (s *strSpace) at(i int64, buf []byte) []byte {
 }
 
 func hx2(b []byte) string { return hex.EncodeToString(b) }
+
+func hashBytes(b []byte) uint64 {
+	h := uint64(14695981039346656037)
+	for _, x := range b {
+		h ^= uint64(x)
+		h *= 1099511628211
+	}
+	return h
+}
